@@ -388,3 +388,45 @@ func TestAcceptGenerated(t *testing.T) {
 		pk.Judge(rt, c, checkAccept(c))
 	})
 }
+
+// TestRejectMutants: single-fault mutants of generated well-typed programs. Every fault site of
+// the base program (operand, argument, arity, condition, iterator, index, list element, branch,
+// annotated let) is mutated on its own; the mutant must receive an error-level diagnostic.
+func TestRejectMutants(t *testing.T) {
+	pk.SkipIfReplay(t)
+	cfg := gen.ModelCfg()
+	perBase := pk.Scale(6, 1000) // thorough: every site of the base
+	rapid.Check(t, func(rt *rapid.T) {
+		g := gen.Program(rt, cfg)
+		sites := gen.Sites(g.Prog)
+		if len(sites) == 0 {
+			pk.Discard("no-fault-sites")
+			return
+		}
+		base := Case{ProgCase: px.FromGenerated(g), Rule: "generated-well-typed", Context: "program"}
+		pk.Eval()
+		if f := checkAccept(base); f != nil {
+			pk.Judge(rt, base, f)
+			return
+		}
+		n := len(sites)
+		if n > perBase {
+			n = perBase
+		}
+		start := 0
+		if len(sites) > n {
+			start = rapid.IntRange(0, len(sites)-1).Draw(rt, "firstSite")
+		}
+		for k := 0; k < n; k++ {
+			s := sites[(start+k*7)%len(sites)]
+			s.Apply()
+			c := Case{ProgCase: px.FromGenerated(g), Rule: s.Rule, Context: s.Where}
+			s.Undo()
+			pk.Eval()
+			pk.Class("mutant-rule:" + s.Rule)
+			pk.Class("mutant-context:" + s.Where)
+			pk.NonTrivial(px.ProgText(c.ProgCase), map[string]any{"rule": s.Rule, "context": s.Where})
+			pk.Judge(rt, c, checkReject(c))
+		}
+	})
+}
